@@ -28,6 +28,8 @@ package storageos
 //@   ensures validated: err == nil ==> validRel(Normalize(path)) && Normalize(path) != "."
 //@   ensures derived: err == nil ==> r == j_ext(b.rootPath, Normalize(path))
 //@   ensures err != nil ==> r == ""
+// (ca-D2) exactly the derivable paths are accepted (d2_derivable: /verif/specs/C15_os.spec)
+//@   ensures exact: (err == nil) <==> d2_derivable(b.rootPath, Normalize(path))
 //@   canary ensures err != nil
 //@   canary ensures err == nil
 //
@@ -37,6 +39,8 @@ package storageos
 //@   ensures validated: err == nil ==> validRel(Normalize(prefix))
 //@   ensures derived: err == nil ==> r == j_ext(b.rootPath, Normalize(prefix))
 //@   ensures err != nil ==> r == ""
+// (ca-D2)
+//@   ensures exact: (err == nil) <==> (validRel(Normalize(prefix)) && second(filepathext.RealClean(normalpath.Join(b.rootPath, Normalize(prefix)))) == nil)
 //@   canary ensures err != nil
 //
 // validateExternalPath only looks at metadata (Stat/Lstat of the path and, to tell "a parent is a file" from other
@@ -44,6 +48,28 @@ package storageos
 //@ func (b *bucket) validateExternalPath(path, externalPath) (err)
 //@   property C13
 //@   modifies ghost.j_osStat
+// (ca-D2) C14: only regular files are objects. The object path is stat'ed once - following symlinks only if the bucket
+// was opened with symlink support -, and with (d2_osInfo, d2_osErr) the answer of that stat: success means a regular
+// file; a directory / device / (without symlink support) a symlink is reported as "does not exist"; a not-exist answer
+// is reported as a not-exist error naming the BUCKET path; every other stat error is reported too (as itself, or as
+// not-exist when a lexical parent is a regular file).
+//@   property C14
+//@   modifies ghost.d2_osErr, ghost.d2_osInfo, ghost.d2_follow
+//@   ghost after "fileInfo, err = os.Stat(externalPath)" d2_follow := add(ghost.d2_follow, externalPath)
+//@   ghost after "fileInfo, err = os.Stat(externalPath)" d2_osErr := err
+//@   ghost after "fileInfo, err = os.Stat(externalPath)" d2_osInfo := fileInfo
+//@   ghost after "fileInfo, err = os.Lstat(externalPath)" d2_osErr := err
+//@   ghost after "fileInfo, err = os.Lstat(externalPath)" d2_osInfo := fileInfo
+//@   ensures regular-files-only: err == nil ==> ghost.d2_osErr == nil && cast(os.FileInfo, ghost.d2_osInfo).Mode().IsRegular()
+//@   ensures regular-accepted: ghost.d2_osErr == nil && cast(os.FileInfo, ghost.d2_osInfo).Mode().IsRegular() ==> err == nil
+//@   ensures non-regular-is-not-exist: ghost.d2_osErr == nil && !cast(os.FileInfo, ghost.d2_osInfo).Mode().IsRegular() ==> (err != nil && typeOf(err) == typeId(*fs.PathError) && cast(*fs.PathError, err).Err == fs.ErrNotExist && cast(*fs.PathError, err).Path == path)
+//@   ensures not-exist-mapped: ghost.d2_osErr != nil && os.IsNotExist(ghost.d2_osErr) ==> (err != nil && typeOf(err) == typeId(*fs.PathError) && cast(*fs.PathError, err).Err == fs.ErrNotExist && cast(*fs.PathError, err).Path == path)
+//@   ensures other-error-reported: ghost.d2_osErr != nil ==> err != nil && (err == ghost.d2_osErr || (err != nil && typeOf(err) == typeId(*fs.PathError) && cast(*fs.PathError, err).Err == fs.ErrNotExist && cast(*fs.PathError, err).Path == path))
+//@   ensures object-path-stated: externalPath in ghost.j_osStat
+//@   ensures follows-only-with-option: ghost.d2_follow == ite(b.symlinks, add(old(ghost.d2_follow), externalPath), old(ghost.d2_follow))
+//@   loop 0 invariant externalPath in ghost.j_osStat
+//@   canary ensures err != nil
+//@   canary ensures err == nil
 //
 //@ func newErrNotDir(path) (r)
 //@   property C13
@@ -66,13 +92,40 @@ package storageos
 //@   ensures confined: forall q string :: q in ghost.j_osRead && !(q in old(ghost.j_osRead)) ==> validRel(Normalize(path)) && Normalize(path) != "." && q == ite(b.symlinks, first(filepath.EvalSymlinks(j_ext(b.rootPath, Normalize(path)))), j_ext(b.rootPath, Normalize(path)))
 //@   ensures object: err == nil ==> obj != nil && cast(*readObjectCloser, obj).ObjectInfo.Path() == path && cast(*readObjectCloser, obj).ObjectInfo.ExternalPath() == j_ext(b.rootPath, Normalize(path))
 //@   ensures reported {C15}: ghost.fail && !old(ghost.fail) ==> err != nil
+// (ca-D2) C14: only regular files are objects (directories, and symlinks unless the bucket follows them, do not exist
+// as far as the bucket is concerned); a missing file is a not-exist error naming the bucket path; nothing is opened
+// before the path passed validation; the object carries path / external path / local path; a failure yields no object.
+//@   modifies ghost.d2_osErr, ghost.d2_osInfo, ghost.d2_follow
+//@   ensures underivable-rejected: !d2_derivable(b.rootPath, Normalize(path)) ==> err != nil && ghost.j_osStat == old(ghost.j_osStat) && ghost.j_osRead == old(ghost.j_osRead)
+//@   ensures regular-files-only: err == nil ==> ghost.d2_osErr == nil && cast(os.FileInfo, ghost.d2_osInfo).Mode().IsRegular()
+//@   ensures non-regular-is-not-exist: d2_derivable(b.rootPath, Normalize(path)) && ghost.d2_osErr == nil && !cast(os.FileInfo, ghost.d2_osInfo).Mode().IsRegular() ==> (err != nil && typeOf(err) == typeId(*fs.PathError) && cast(*fs.PathError, err).Err == fs.ErrNotExist && cast(*fs.PathError, err).Path == path)
+//@   ensures not-exist-mapped: d2_derivable(b.rootPath, Normalize(path)) && ghost.d2_osErr != nil && os.IsNotExist(ghost.d2_osErr) ==> (err != nil && typeOf(err) == typeId(*fs.PathError) && cast(*fs.PathError, err).Err == fs.ErrNotExist && cast(*fs.PathError, err).Path == path)
+//@   ensures stat-error-reported: d2_derivable(b.rootPath, Normalize(path)) && ghost.d2_osErr != nil ==> err != nil && (err == ghost.d2_osErr || (err != nil && typeOf(err) == typeId(*fs.PathError) && cast(*fs.PathError, err).Err == fs.ErrNotExist && cast(*fs.PathError, err).Path == path))
+//@   ensures opened-only-validated: ghost.j_osRead != old(ghost.j_osRead) ==> ghost.d2_osErr == nil && cast(os.FileInfo, ghost.d2_osInfo).Mode().IsRegular()
+//@   ensures stats-the-derived-path: d2_derivable(b.rootPath, Normalize(path)) ==> j_ext(b.rootPath, Normalize(path)) in ghost.j_osStat
+//@   ensures follows-only-with-option: !b.symlinks ==> ghost.d2_follow == old(ghost.d2_follow)
+//@   ensures local-path: err == nil ==> cast(*readObjectCloser, obj).ObjectInfo.LocalPath() == j_ext(b.rootPath, Normalize(path))
+//@   ensures failure-yields-nothing: err != nil ==> obj == nil
 //@   canary ensures err != nil
+//@   canary ensures err == nil
 //
 //@ func (b *bucket) Stat(ctx, path) (obj, err)
 //@   property C13 C14
 //@   modifies ghost.j_osStat
 //@   ensures validated: err == nil ==> validRel(Normalize(path)) && Normalize(path) != "."
+// (ca-D2) Stat answers like Get without opening anything (frame: j_osRead, j_osWrite untouched)
+//@   modifies ghost.d2_osErr, ghost.d2_osInfo, ghost.d2_follow
+//@   ensures underivable-rejected: !d2_derivable(b.rootPath, Normalize(path)) ==> err != nil && ghost.j_osStat == old(ghost.j_osStat)
+//@   ensures exists-iff-regular-file: d2_derivable(b.rootPath, Normalize(path)) ==> ((err == nil) <==> (ghost.d2_osErr == nil && cast(os.FileInfo, ghost.d2_osInfo).Mode().IsRegular()))
+//@   ensures non-regular-is-not-exist: d2_derivable(b.rootPath, Normalize(path)) && ghost.d2_osErr == nil && !cast(os.FileInfo, ghost.d2_osInfo).Mode().IsRegular() ==> (err != nil && typeOf(err) == typeId(*fs.PathError) && cast(*fs.PathError, err).Err == fs.ErrNotExist && cast(*fs.PathError, err).Path == path)
+//@   ensures not-exist-mapped: d2_derivable(b.rootPath, Normalize(path)) && ghost.d2_osErr != nil && os.IsNotExist(ghost.d2_osErr) ==> (err != nil && typeOf(err) == typeId(*fs.PathError) && cast(*fs.PathError, err).Err == fs.ErrNotExist && cast(*fs.PathError, err).Path == path)
+//@   ensures stat-error-reported: d2_derivable(b.rootPath, Normalize(path)) && ghost.d2_osErr != nil ==> err != nil && (err == ghost.d2_osErr || (err != nil && typeOf(err) == typeId(*fs.PathError) && cast(*fs.PathError, err).Err == fs.ErrNotExist && cast(*fs.PathError, err).Path == path))
+//@   ensures stats-the-derived-path: d2_derivable(b.rootPath, Normalize(path)) ==> j_ext(b.rootPath, Normalize(path)) in ghost.j_osStat
+//@   ensures follows-only-with-option: !b.symlinks ==> ghost.d2_follow == old(ghost.d2_follow)
+//@   ensures object: err == nil ==> obj != nil && cast(storageutil.ObjectInfo, obj).path == path && cast(storageutil.ObjectInfo, obj).externalPath == j_ext(b.rootPath, Normalize(path)) && cast(storageutil.ObjectInfo, obj).localPath == j_ext(b.rootPath, Normalize(path))
+//@   ensures failure-yields-nothing: err != nil ==> obj == nil
 //@   canary ensures err != nil
+//@   canary ensures err == nil
 //
 // Put: the write-side paths are the derived path and its parent directory, nothing else; an atomic put writes a
 // temporary file in that directory and remembers the derived path as the rename target, a plain put has no target.
@@ -83,7 +136,28 @@ package storageos
 //@   ensures confined: forall q string :: q in ghost.j_osWrite && !(q in old(ghost.j_osWrite)) ==> validRel(Normalize(path)) && Normalize(path) != "." && (q == j_ext(b.rootPath, Normalize(path)) || q == filepath.Dir(j_ext(b.rootPath, Normalize(path))))
 //@   ensures target {C15}: err == nil ==> w != nil && cast(*writeObjectCloser, w).file != nil && cast(*writeObjectCloser, w).path == ite(storage.NewPutOptions(options).Atomic(), j_ext(b.rootPath, Normalize(path)), "")
 //@   ensures reported {C15}: ghost.wfail && !old(ghost.wfail) ==> err != nil
+// (ca-D2) C15, "an atomic put makes an object visible only in full": an ATOMIC put never touches the final path - its
+// only file is one temporary file, created in the SAME directory as the final path (so that the later rename does not
+// cross file systems) under a name derived from the final base name; a PLAIN put creates (truncates) exactly the final
+// path and no temporary file. The parent directory is created only when its stat said "does not exist"; a parent that
+// exists and is not a directory is an error before anything is written; the directory is stat'ed following symlinks
+// only with the symlink option; a failed put returns no writer; an underivable path touches nothing at all.
+//@   modifies ghost.d2_tmpDirs, ghost.d2_tmpPatterns, ghost.d2_created, ghost.d2_follow
+//@   ghost after "file, err = os.CreateTemp(" d2_tmpDirs := add(ghost.d2_tmpDirs, externalDir)
+//@   ghost after "file, err = os.CreateTemp(" d2_tmpPatterns := add(ghost.d2_tmpPatterns, ".tmp" + filepath.Base(externalPath) + "*")
+//@   ghost after "file, err = os.Create(externalPath)" d2_created := add(ghost.d2_created, externalPath)
+//@   ghost after "fileInfo, err = os.Stat(externalDir)" d2_follow := add(ghost.d2_follow, externalDir)
+//@   ensures underivable-rejected {C15}: !d2_derivable(b.rootPath, Normalize(path)) ==> err != nil && ghost.j_osWrite == old(ghost.j_osWrite) && ghost.j_osStat == old(ghost.j_osStat)
+//@   ensures atomic-final-untouched {C15}: storage.NewPutOptions(options).Atomic() ==> ghost.d2_created == old(ghost.d2_created) && (forall q string :: q in ghost.j_osWrite && !(q in old(ghost.j_osWrite)) ==> q == filepath.Dir(j_ext(b.rootPath, Normalize(path))))
+//@   ensures atomic-temp-beside-final {C15}: storage.NewPutOptions(options).Atomic() && err == nil ==> ghost.d2_tmpDirs == add(old(ghost.d2_tmpDirs), filepath.Dir(j_ext(b.rootPath, Normalize(path)))) && ghost.d2_tmpPatterns == add(old(ghost.d2_tmpPatterns), ".tmp" + filepath.Base(j_ext(b.rootPath, Normalize(path))) + "*")
+//@   ensures plain-creates-final {C15}: !storage.NewPutOptions(options).Atomic() && err == nil ==> ghost.d2_created == add(old(ghost.d2_created), j_ext(b.rootPath, Normalize(path))) && j_ext(b.rootPath, Normalize(path)) in ghost.j_osWrite
+//@   ensures plain-no-temp {C15}: !storage.NewPutOptions(options).Atomic() ==> ghost.d2_tmpDirs == old(ghost.d2_tmpDirs) && ghost.d2_tmpPatterns == old(ghost.d2_tmpPatterns)
+//@   ensures follows-only-with-option {C14}: ghost.d2_follow == ite(b.symlinks && d2_derivable(b.rootPath, Normalize(path)), add(old(ghost.d2_follow), filepath.Dir(j_ext(b.rootPath, Normalize(path)))), old(ghost.d2_follow))
+//@   ensures failure-yields-nothing {C15}: err != nil ==> w == nil
+//@   assert before "return nil, newErrNotDir(externalDir)" not-a-directory-nothing-written {C15}: ghost.j_osWrite == old(ghost.j_osWrite) && !fileInfo.IsDir()
+//@   assert before "if err := os.MkdirAll(externalDir, 0755)" mkdir-only-when-missing {C15}: os.IsNotExist(err) && ghost.j_osWrite == old(ghost.j_osWrite)
 //@   canary ensures err != nil
+//@   canary ensures err == nil
 //
 //@ func (b *bucket) Delete(ctx, path) (err)
 //@   property C13 C14 C15
@@ -91,7 +165,14 @@ package storageos
 //@   ensures validated: err == nil ==> validRel(Normalize(path)) && Normalize(path) != "."
 //@   ensures confined: forall q string :: q in ghost.j_osWrite && !(q in old(ghost.j_osWrite)) ==> validRel(Normalize(path)) && Normalize(path) != "." && q == j_ext(b.rootPath, Normalize(path))
 //@   ensures reported {C15}: ghost.wfail && !old(ghost.wfail) ==> err != nil
+// (ca-D2) exactly one os.Remove, of exactly the derived path, for a derivable path, none otherwise; success means
+// that Remove succeeded; a not-exist answer of Remove is reported as a not-exist error naming the BUCKET path.
+//@   ensures underivable-rejected: !d2_derivable(b.rootPath, Normalize(path)) ==> err != nil && ghost.j_osWrite == old(ghost.j_osWrite) && ghost.j_removeCalls == old(ghost.j_removeCalls)
+//@   ensures removes-exactly-the-object: d2_derivable(b.rootPath, Normalize(path)) ==> ghost.j_removeCalls == old(ghost.j_removeCalls) + 1 && ghost.j_removed == add(old(ghost.j_removed), j_ext(b.rootPath, Normalize(path))) && ghost.j_osWrite == add(old(ghost.j_osWrite), j_ext(b.rootPath, Normalize(path)))
+//@   ensures success-iff-removed {C15}: !old(ghost.wfail) && d2_derivable(b.rootPath, Normalize(path)) ==> ((err == nil) <==> !ghost.wfail)
+//@   assert before "return &fs.PathError{Op: \"stat\", Path: path, Err: fs.ErrNotExist}" not-exist-mapped: os.IsNotExist(err)
 //@   canary ensures err != nil
+//@   canary ensures err == nil
 //
 // DeleteAll removes exactly the tree at the derived prefix. (A not-exist answer of RemoveAll is deliberately mapped
 // to nil, so no `reported` clause is claimed here.)
@@ -100,7 +181,11 @@ package storageos
 //@   modifies ghost.fail, ghost.wfail, ghost.j_osWrite
 //@   ensures validated: err == nil ==> validRel(Normalize(prefix))
 //@   ensures confined: forall q string :: q in ghost.j_osWrite && !(q in old(ghost.j_osWrite)) ==> validRel(Normalize(prefix)) && q == j_ext(b.rootPath, Normalize(prefix))
+// (ca-D2) an invalid prefix touches nothing; a valid one is removed as a whole tree (one RemoveAll of the derived path)
+//@   ensures invalid-rejected: !validRel(Normalize(prefix)) ==> err != nil && ghost.j_osWrite == old(ghost.j_osWrite)
+//@   ensures removes-the-tree: err == nil ==> ghost.j_osWrite == add(old(ghost.j_osWrite), j_ext(b.rootPath, Normalize(prefix)))
 //@   canary ensures err != nil
+//@   canary ensures err == nil
 //
 // ---- C15: the write closer
 //
@@ -157,12 +242,23 @@ package storageos
 //@   ensures confined: forall q string :: q in ghost.j_osRead && !(q in old(ghost.j_osRead)) ==> validRel(Normalize(prefix)) && q == j_ext(old(b.rootPath), Normalize(prefix))
 //@   closure 0 invariant forall q string :: q in ghost.j_osRead && !(q in old(ghost.j_osRead)) ==> validRel(Normalize(prefix)) && q == j_ext(old(b.rootPath), Normalize(prefix))
 //@   assert before "if err := f( storageutil.NewObjectInfo( path," reported-valid: validRel(path)
+// (ca-D2) C14: only regular files are reported; the tree is walked following symlinks exactly when the bucket was opened
+// with symlink support; an invalid prefix is rejected before anything is read.
+//@   assert before "if err := f( storageutil.NewObjectInfo( path," only-regular-files {C14}: fileInfo.Mode().IsRegular()
+//@   assert before "if err := filepathext.Walk(" symlinks-per-option {C14}: len(walkOptions) == ite(b.symlinks, 1, 0)
+//@   ensures invalid-rejected: !validRel(Normalize(prefix)) ==> err != nil && ghost.j_osRead == old(ghost.j_osRead)
 //@   canary ensures err != nil
+//@   canary ensures err == nil
 //
 //@ func validateDirPathExists(dirPath, symlinks) (err)
 //@   property C13
 //@   modifies ghost.j_osStat
 //@   ensures stat-only: ghost.j_osStat == add(old(ghost.j_osStat), dirPath)
+// (ca-D2) the directory is stat'ed following symlinks exactly with the symlink option
+//@   modifies ghost.d2_follow
+//@   ghost after "fileInfo, err = os.Stat(dirPath)" d2_follow := add(ghost.d2_follow, dirPath)
+//@   ensures follows-only-with-option {C14}: ghost.d2_follow == ite(symlinks, add(old(ghost.d2_follow), dirPath), old(ghost.d2_follow))
+//@   assert before "return newErrNotDir(dirPath)" not-a-directory: !fileInfo.IsDir()
 //
 // A bucket's root is the normalized form of the directory it was opened on; opening only stats that directory.
 //@ func newBucket(rootPath, symlinks) (r, err)
@@ -170,4 +266,9 @@ package storageos
 //@   modifies ghost.j_osStat
 //@   ensures rooted: err == nil ==> r != nil && r.rootPath == Normalize(rootPath) && r.symlinks == symlinks && r.absoluteRootPath == first(filepath.Abs(rootPath))
 //@   ensures err != nil ==> r == nil
+// (ca-D2)
+//@   modifies ghost.d2_follow
+//@   ensures follows-only-with-option {C14}: !symlinks ==> ghost.d2_follow == old(ghost.d2_follow)
+//@   ensures fresh: err == nil ==> !old(allocated(r)) && allocated(r)
 //@   canary ensures err != nil
+//@   canary ensures err == nil
